@@ -127,6 +127,8 @@ def correspondence(ctx):
 def _correspondence_once(ctx, rep=0):
     gen = torch.Generator().manual_seed(ctx.seed * 7919 + 9 + 104729 * rep)
     reqs, metas = [], []
+    if rep == 0:
+        long_grids(ctx, gen, count=True)
     for (fam, tails, K, regime, box, B, extra) in configs(ctx):
         cfg = S.defaults(fam, tails)
         if extra:
@@ -296,8 +298,25 @@ def oracle_config(ctx, fam, tails, K, regime, box, B, extra, gen, npts=64):
             ctx.fail('not continuous at the tail bound', case, match={'fam': fam, 'symptom': 'junction'}); return
 
 
+def long_grids(ctx, gen, count=False):
+    """one call on MANY points (more than 2^16, not a multiple of 2^12 or 2^16): an implementation that processes long inputs in blocks must
+    still be the same increasing bijection on every point.  The property's own oracle on a sorted grid of 70001 points per family, bounded
+    and with tails; failures are reported with the grid point as the failing input."""
+    before = len(ctx.failing)
+    for fam in S.FAMS:
+        for tails, box, B in ((False, (-1.5, 2.0, 0.25, 4.0), None), (True, None, 3.0)):
+            if count:
+                ctx.case(key=('long-grid', fam, tails), branch='long-grid/%s/%s' % (fam, 'tails' if tails else 'box'), nontrivial=True, n=70001)
+            oracle_config(ctx, fam, tails, 5, 'normal', box, B, None, gen, npts=70001)
+    if count:
+        for f_ in ctx.failing[before:]:
+            if not ctx.is_known(f_.get('match', {})):
+                ctx.disagree('C09/long-grid', f_['case'], f_['what'], 'property holds', f_['what'])
+
+
 def search(ctx):
     gen = torch.Generator().manual_seed(ctx.seed + 4242)
+    long_grids(ctx, gen)
     for cfg in configs(ctx):
         oracle_config(ctx, *cfg, gen)
         if len(ctx.failing) >= 5 or ctx.elapsed() > (600 if ctx.quick() else 3000):
